@@ -153,7 +153,7 @@ def relation(rel, p, n, window=None, pattern=('zeros', 0), timeout=300, seed=0):
     return out
 
 
-def vectorised(p, n, rows=3, timeout=300, seed=0):
+def vectorised(p, n, rows=3, timeout=300, seed=0, dtype='int64'):
     """R6: distances_from_coordinates / coordinates_from_distances == row-wise scalar functions on symbolic rows;
     the caller's coordinate array is not modified"""
     t0 = time.time()
@@ -167,7 +167,7 @@ def vectorised(p, n, rows=3, timeout=300, seed=0):
     for r in range(rows):
         for i in range(n):
             arr[r, i] = SInt(cs[r][i])
-    it.sdtype[id(arr)] = (arr, np.dtype(np.int64))
+    it.sdtype[id(arr)] = (arr, np.dtype(dtype))
     res = it.call(it.func(HC, 'distances_from_coordinates'), [p, arr])
     it2 = mk()
     bad = []
@@ -257,12 +257,12 @@ def replay_relation(rel, p, n, inputs):
     return False, {}
 
 
-def replay_vectorised(p, n, inputs):
+def replay_vectorised(p, n, inputs, dtype='int64'):
     from spatialpandas.spatialindex.hilbert_curve import coordinates_from_distances, distances_from_coordinates
-    coords = np.array(inputs['coords'], dtype=np.int64)
+    coords = np.array(inputs['coords'], dtype=np.dtype(dtype))
     keep = coords.copy()
     got = [int(x) for x in distances_from_coordinates(p, coords)]
-    want = [real_d(p, list(r)) for r in keep]
+    want = [real_d(p, [int(x) for x in r]) for r in keep]
     hs = np.array(inputs['hs'], dtype=np.int64)
     gotc = [[int(x) for x in r] for r in coordinates_from_distances(p, n, hs)]
     wantc = [real_c(p, n, int(h)) for h in hs]
